@@ -60,21 +60,33 @@ macro "ext_tie_lfsr" f:ident : tactic =>
 
 /-! ### rand_hc / rand_isaac (the larger proofs are scripts emitted by tools/extract_units.py; lemmas: ExtTieBlock, ExtTieShapes) -/
 
-/-- `step_p`, `step_q`: the translation (slice views resolved to `self.t` at index + offset) unfolds to the model -/
+/-- `step_p`, `step_q`: the translation (slice views resolved to `self.t` at index + offset) unfolds to the model.  Both sides
+    are unfolded to let-free terms; left rotations are written as right rotations, a store split in two
+    (`p[i] = p[i] + a; p[i] = p[i] + b`) is merged (`wr_wr_same`, and `rd (wr t i x) i = x` when `i` is in bounds — out of
+    bounds every store is void), sums are re-associated.  No unbounded `rfl`: a failing script must fail fast. -/
+macro "ext_tie_hc_step_at" f:ident idx:term : tactic =>
+  `(tactic| (simp only [$f:ident, Hc128.stepP, Hc128.stepQ, wr_wr_same, rotl_eq_rotr, Nat.reduceSub, Nat.reduceLT, Nat.add_zero]
+             first
+             | done
+             | (by_cases h : $idx
+                · simp only [rd_wr_same _ _ _ h, BitVec.add_assoc]
+                  first | done | ac_rfl
+                · simp only [wr_of_le _ _ _ (Nat.le_of_not_lt h)]
+                  first | done | ac_rfl)
+             | ac_rfl))
 macro "ext_tie_hc_step" f:ident : tactic =>
-  `(tactic| first
-    | (intros; rfl)
-    | (intros
-       simp only [$f:ident, Hc128.stepP, Hc128.stepQ, Nat.add_assoc, Nat.add_comm, Nat.add_left_comm, BitVec.add_assoc,
-         BitVec.add_comm, BitVec.add_left_comm, BitVec.xor_comm]))
+  `(tactic| (intro st i i511 i3 i10 i12
+             first
+             | ext_tie_hc_step_at $f (i < st.t.size)
+             | ext_tie_hc_step_at $f (512 + i < st.t.size)))
 
 /-- ISAAC's nested `rngstep`, `mix` with their `&mut` parameters returned as a tuple -/
 macro "ext_tie_isaac_step" f:ident : tactic =>
   `(tactic| first
     | (intros; rfl)
     | (intros
-       simp only [$f:ident, Isaac.rngstep, Isaac.ind, Isaac.params32, Isaac.params64, BitVec.add_assoc, BitVec.add_comm,
-         BitVec.add_left_comm, BitVec.xor_comm]))
+       simp only [$f:ident, Isaac.rngstep, Isaac.ind, Isaac.params32, Isaac.params64, BitVec.add_assoc]
+       first | done | ac_rfl))
 
 /-- the hand-written `PartialEq` of the cores: field-wise comparison = the model's `beq` -/
 macro "ext_tie_core_eq" f:ident : tactic =>
@@ -86,7 +98,8 @@ macro "ext_tie_core_eq" f:ident : tactic =>
 /-- `ind`: `Wrapping >> usize` masks the amount, the model shifts by it: equal for amounts below the width -/
 macro "ext_tie_isaac_ind" f:ident : tactic =>
   `(tactic| (intro mem v amount h
-             simp only [$f:ident, Isaac.ind, Nat.mod_eq_of_lt h]
-             first | rfl | simp only [Isaac.RAND_SIZE, Isaac.RAND_SIZE_LEN, Nat.reducePow]))
+             simp only [$f:ident, Isaac.ind, Nat.mod_eq_of_lt h, Isaac.RAND_SIZE, Isaac.RAND_SIZE_LEN, Nat.reduceSub, Nat.reducePow,
+               and_255]
+             first | done | rfl))
 
 end Rngs
